@@ -14,6 +14,7 @@ Lemma gen_output_shapes :
      "_remainder > 60 => time += f'{_remainder // 60}M' ; _remainder = _remainder % 60";
      "_remainder => time += f'{_remainder}S'"; "return days + time"] /\
   Gen.Output.duration_regex = "^(\d+?)([WDHMS])(.*)" /\
+  Gen.Output.duration_regex_flags = ["re.DOTALL"] /\ Gen.Output.duration_regex_uses = ["_re.match"] /\
   Gen.Output.duration_units =
     ["what == 'W' => res += timedelta(days=7 * num)"; "what == 'D' => res += timedelta(days=num)";
      "what == 'H' => res += timedelta(hours=num)"; "what == 'M' => if time_section:";
